@@ -141,7 +141,7 @@ pub fn run_c19(cases: usize, max_n: usize, seed: u64, threads: usize, timeout: D
                 }
                 // the probe of the recorded finding either dies at once or (should the recursion ever be
                 // removed) runs for many minutes: a short budget, inconclusive when exceeded
-                let t = if longest_ephemeral_run(&all[i]) >= 50_000 { timeout.min(Duration::from_secs(30)) } else { timeout };
+                let t = if longest_ephemeral_run(&all[i]) >= 50_000 { timeout.min(Duration::from_secs(120)) } else { timeout };
                 let o = run_child(&all[i], t);
                 results.lock().unwrap().push((i, o));
             });
